@@ -179,6 +179,16 @@ CHECKS = {
         "differential digests vs fresh-process baseline + module-table snapshots + yield-injection scheduler",
         "4/C16",
     ),
+    "C18": (
+        "exploration",
+        "(corpus / generated input, target format, option set) triples incl. impossible conversions are executed as `python -m "
+        "iodata` subprocess with a sentinel at the output path, through the corresponding API calls and through convert(); exit "
+        "status 0 must imply API success and byte-identical output, an API failure must give a non-zero status naming the problem "
+        "on stderr, and a pre-flight rejection must leave the sentinel untouched. Directed cases cover conversions that need -c "
+        "and inputs that need -i.",
+        "differential execution: CLI subprocess vs API vs convert() with file-state monitor",
+        "4/C18",
+    ),
 }
 
 NOT_YET = "check not built yet (work in progress; see DESIGN.md section 5b)"
